@@ -320,18 +320,15 @@ def get_edges(blocks, first_edge=0, polarity=0, analyse=False):
             start = len(edges) - 1
 
             if 0 in timings.zero or 0 in timings.one:
-                p = q = 0
                 for k, b in enumerate(data, 1):
                     for j in range(8 if k < len(data) else timings.used_bits):
                         for d in timings.one if b & 0x80 else timings.zero:
-                            if d:
-                                tstates += d
-                                if p == q:
-                                    edges.append(tstates)
-                                    q = 1 - q
-                                else:
-                                    edges[-1] += d
-                            p = 1 - p
+                            tstates += d
+                            if len(edges) > 1 and edges[-1] == tstates:
+                                # Two level changes at the same instant cancel out
+                                edges.pop()
+                            else:
+                                edges.append(tstates)
                         b *= 2
             else:
                 key = (timings.zero, timings.one)
